@@ -15,6 +15,7 @@ import VotelibProofs.Lemmas.ScaleConvert
 import VotelibProofs.Lemmas.ScaleRanked
 import VotelibProofs.Lemmas.ScaleApproval
 import VotelibProofs.Lemmas.ScaleStar
+import VotelibProofs.Lemmas.ScaleBucklin
 import VotelibModel.ScaleFamilies
 import VotelibModel.Gen.Quota
 import Mathlib.Tactic.Ring
@@ -247,6 +248,18 @@ theorem star_scale (ac : Nat) (af : Rat) (cfg : Score.Cfg) (hcfg : ScaleFreeCfg 
     Score.star ac af cfg (scaleScore k votes) n = Score.star ac af cfg votes n :=
   VL.Scale.star_scale ac af cfg hcfg k hk votes n
 
+/-! ### Bucklin -/
+
+/-- **Bucklin** — `PreferenceAddition()` for ONE seat (the C17 model), with the default even splitting of shared ranks
+    over their linear orders: the decoupling is linear, the round totals and the majority quota `Σ/2` scale by `k`.
+    (More than one seat and the Oklahoma coefficients are not modelled: listed as unproved.) -/
+theorem bucklin_scale (k : Rat) (hk : 0 < k) (p : Convert.RProfile) :
+    Mono.evalBucklinSplit (scaleProfile k p) = Mono.evalBucklinSplit p := VL.Scale.evalBucklinSplit_scale k hk p
+
+/-- the same with `split_equal_rankings=False` -/
+theorem bucklinWhole_scale (k : Rat) (hk : 0 < k) (p : Convert.RProfile) :
+    Mono.evalBucklin (scaleProfile k p) = Mono.evalBucklin p := VL.Scale.evalBucklin_scale k hk p
+
 /-- **Near ties are never ties**: totals that differ by one vote at any magnitude (`v` is any rational, so in particular
     `10^30`) are separated. -/
 theorem near_tie_separated (a b : Cand) (v : Rat) :
@@ -291,6 +304,8 @@ example : Score.scoreVoting ⟨.medianLow, .none, 0, .off, 0⟩ (scaleScore 7 [(
     = .ok [Slot.cand 1] := by decide +kernel
 example : Score.star 1 0 ⟨.sum, .none, 0, .off, 0⟩ (scaleScore 7 [([(1, 5), (2, 0), (3, 0)], 2), ([(1, 1), (2, 2), (3, 0)], 3)]) 1
     = .ok [Slot.cand 2] := by decide +kernel
+example : Mono.evalBucklinSplit (scaleProfile ((10:Rat)^25 + 7)
+    [([.one 1, .one 2, .one 3], 2), ([.one 3, .shared [1, 2]], 2), ([.one 2], 1)]) = .ok [Slot.cand 2] := by decide +kernel
 example : relativeThreshold (1/3) false (scaleVotes ((10:Rat)^25 + 7) [(1,2),(2,1),(3,3)]) = .ok [3] := by decide +kernel
 example : getNBest (scaleVotes ((10:Rat)^25 + 7) [(1,5),(2,3),(3,3)]) 2 = [Slot.cand 1, Slot.tie [2,3]] := by decide +kernel
 
